@@ -141,14 +141,16 @@ static std::string read_file(const std::string &p, size_t cap = 200000) {
   fclose(f); return s;
 }
 
-// Short "Class::function" of the first stack frame that lies in the code under test.
-static std::string top_frame(const std::string &rep, std::string *loc) {
-  size_t p = 0;
+// Short "Class::function" of the first stack frame that lies in the code under test.  *via_harness is set
+// when frames of the harness / oracle lie above it (the fault was raised while a handler callback touched
+// data the reader had passed to it, e.g. a name whose length reaches beyond the input buffer).
+static std::string top_frame(const std::string &rep, std::string *loc, bool *via_harness = nullptr) {
+  size_t p = 0; bool harness = false; std::string hframe;
   while ((p = rep.find("\n    #", p)) != std::string::npos) {
     size_t e = rep.find('\n', p + 1); std::string ln = rep.substr(p + 1, e - p - 1); p = e == std::string::npos ? rep.size() : e;
     size_t in = ln.find(" in "); if (in == std::string::npos) continue;
     if (ln.find("/checks/C02/") != std::string::npos || ln.find("/verif/ref/") != std::string::npos ||
-        ln.find("/verif/engine/") != std::string::npos) return "HARNESS " + ln.substr(in + 4);
+        ln.find("/verif/engine/") != std::string::npos) { if (!harness) hframe = ln.substr(in + 4); harness = true; continue; }
     if (ln.find(" " + g_repo + "/") == std::string::npos) continue;
     std::string fn = ln.substr(in + 4);
     size_t sp = fn.rfind(' '); if (loc && sp != std::string::npos) *loc = fn.substr(sp + 1);
@@ -159,8 +161,10 @@ static std::string top_frame(const std::string &rep, std::string *loc) {
     size_t sp2 = o.rfind(' '); if (sp2 != std::string::npos) o = o.substr(sp2 + 1);   // drop return type
     // keep the last two components
     size_t c1 = o.rfind("::"); if (c1 != std::string::npos) { size_t c2 = o.rfind("::", c1 - 1); if (c2 != std::string::npos) o = o.substr(c2 + 2); }
+    if (via_harness) *via_harness = harness;
     return o;
   }
+  if (harness) return "HARNESS " + hframe;
   return "?";
 }
 
@@ -200,7 +204,9 @@ static Crash classify(int status, const std::string &rep) {
     size_t k = rep.find("AddressSanitizer: ", a);
     std::string kind = "error";
     if (k != std::string::npos) { size_t e = rep.find_first_of(" \n", k + 18); kind = rep.substr(k + 18, e - k - 18); }
-    c.kind = "ASan " + kind; c.site = top_frame(rep.substr(a), &c.loc);
+    bool via = false;
+    c.kind = "ASan " + kind; c.site = top_frame(rep.substr(a), &c.loc, &via);
+    if (via) c.site += " (detected in the handler reading data passed by the reader)";
     size_t e = rep.find('\n', a); c.summary = rep.substr(a, e - a);
     return c;
   }
